@@ -210,7 +210,9 @@ func runC11(e *Env) {
 		if chance(r, 1, 3) {
 			G = pick(r, []string{"/g", "g", "/g/", " /g ", "//g", "/g/h", "g/h/"})
 		}
-		t.Describe(func() any { return map[string]any{"registered": P, "requested": Q, "group_prefix": G, "strict": strict} })
+		t.Describe(func() any {
+			return map[string]any{"registered": P, "requested": Q, "group_prefix": G, "strict": strict}
+		})
 		t.AutoSample()
 		np, okP := RefNormalize(P, strict)
 		nq, okQ := RefNormalize(Q, strict)
@@ -458,7 +460,6 @@ func runC11(e *Env) {
 	e.Require("pathsource.spellings_differ", 1000)
 	e.Require("pathsource.dynamic_checked", 100)
 }
-
 
 // c11Ctrl registers GET "/x" like the group body of the prefix checks does.
 type c11Ctrl struct{ route *rux.Route }
